@@ -1,1 +1,985 @@
-"""placeholder"""
+"""Updates as transactions, simulations, bookkeeping: R-TXN, R-MIRROR, R-ZIP, R-SNAP, R-ENTRY, R-EDGE, R-ID, R-GUARD,
+R-REV, R-PUREVIEW (DESIGN §5.A, §5.D, §5.E)."""
+import ast
+
+from . import rule
+from ..frontend import AnalysisError, norm, is_property
+from ..report import Finding, RuleResult
+from ..interp import Cx
+
+MU = "abstract_modeling_classes/modeling_update.py"
+MO = "abstract_modeling_classes/modeling_object.py"
+OL = "abstract_modeling_classes/object_linked_to_modeling_obj.py"
+EB = "abstract_modeling_classes/explainable_object_base_class.py"
+ED = "abstract_modeling_classes/explainable_object_dict.py"
+CM = "abstract_modeling_classes/contextual_modeling_object_attribute.py"
+LL = "abstract_modeling_classes/list_linked_to_modeling_obj.py"
+
+MUT_PRIMS = {"replace_in_mod_obj_container_without_recomputation", "set_modeling_obj_container", "update_function"}
+RAISE_PRIMS = {"check_belonging_to_authorized_values": "val", "check_input_value_type_positivity_and_unit": "val",
+               "update_function": "recompute"}
+
+
+def _calls(node):
+    """calls inside a statement in source order"""
+    out = [n for n in ast.walk(node) if isinstance(n, ast.Call)]
+    out.sort(key=lambda c: (c.lineno, c.col_offset))
+    return out
+
+
+def _self_method_call(c):
+    if isinstance(c.func, ast.Attribute) and isinstance(c.func.value, ast.Name) and c.func.value.id == "self":
+        return c.func.attr
+    return None
+
+
+class TxnAnalysis:
+    """Summaries and ordered walk over the methods of ModelingUpdate."""
+
+    def __init__(self, pm):
+        self.pm = pm
+        self.rel, self.cls = pm.find_function(MU, "ModelingUpdate")
+        self.methods = {f.name: f for f in self.cls.body if isinstance(f, ast.FunctionDef)}
+        self._mut, self._raise = {}, {}
+
+    def summary(self, name, table, prims, seen=None):
+        if name in table:
+            return table[name]
+        seen = seen or set()
+        if name in seen or name not in self.methods:
+            return False
+        seen.add(name)
+        fn = self.methods[name]
+        res = False
+        for n in ast.walk(fn):
+            if isinstance(n, ast.Call) and isinstance(n.func, ast.Attribute) and n.func.attr in prims:
+                res = True
+            if isinstance(n, ast.Attribute) and n.attr in prims and n.attr == "update_function":
+                res = True
+            if prims is RAISE_PRIMS and isinstance(n, ast.Raise):
+                res = True
+            if isinstance(n, ast.Call):
+                m = _self_method_call(n)
+                if m and m in self.methods and self.summary(m, table, prims, seen):
+                    res = True
+            if isinstance(n, ast.Attribute) and isinstance(n.value, ast.Name) and n.value.id == "self" \
+                    and n.attr in self.methods and is_property(self.methods[n.attr]) \
+                    and self.summary(n.attr, table, prims, seen):
+                res = True
+        table[name] = res
+        return res
+
+    def is_mut(self, name):
+        return self.summary(name, self._mut, MUT_PRIMS)
+
+    def may_raise(self, name):
+        return self.summary(name, self._raise, RAISE_PRIMS)
+
+    def restores(self, name):
+        """method contains a loop that re-installs values with replace_in_mod_obj_container_without_recomputation"""
+        fn = self.methods.get(name)
+        if fn is None:
+            return False
+        for n in ast.walk(fn):
+            if isinstance(n, ast.For):
+                for c in ast.walk(n):
+                    if isinstance(c, ast.Call) and isinstance(c.func, ast.Attribute) \
+                            and c.func.attr == "replace_in_mod_obj_container_without_recomputation":
+                        return True
+        return False
+
+
+@rule("R-TXN")
+def r_txn(E):
+    pm = E.pm
+    res = RuleResult("R-TXN", "ModelingUpdate is a transaction: once a model value has been replaced, anything that can "
+                              "raise a user-facing error (allowed-value validation, date checks, a raising update rule) "
+                              "runs inside a try whose handler re-installs every replaced value and re-raises; partial "
+                              "progress is visible to that handler; a simulation ends with reset_values")
+    T = TxnAnalysis(pm)
+    rel = T.rel
+    init = T.methods.get("__init__")
+    if init is None:
+        raise AnalysisError("ModelingUpdate.__init__ vanished")
+    findings = []
+    state = {"mut": False}
+    events = []
+
+    def clause_of(what):
+        if "check_belonging" in what or "check_input_value" in what:
+            return ["val", "sim"]
+        if "update_function" in what or "recompute" in what:
+            return ["recompute", "sim"]
+        if "date" in what or "raise" in what:
+            return ["date", "sim"]
+        return ["sim"]
+
+    def report(node, what, func):
+        res.instances += 0
+        findings.append((node, what, func))
+
+    def walk(stmts, prot, func, depth=0):
+        if depth > 8:
+            return
+        for s in stmts:
+            if isinstance(s, ast.Try):
+                handler_ok = False
+                for h in s.handlers:
+                    catches_all = h.type is None or (isinstance(h.type, ast.Name) and h.type.id in (
+                        "Exception", "BaseException"))
+                    calls = [_self_method_call(c) for c in _calls(h)]
+                    reraises = any(isinstance(n, ast.Raise) for n in ast.walk(h))
+                    if catches_all and reraises and any(m and T.restores(m) for m in calls):
+                        handler_ok = True
+                fin_ok = any(_self_method_call(c) and T.restores(_self_method_call(c)) for st in s.finalbody
+                             for c in _calls(st))
+                walk(s.body, prot or handler_ok or fin_ok, func, depth)
+                walk(s.orelse, prot, func, depth)
+                walk(s.finalbody, prot, func, depth)
+                continue
+            if isinstance(s, ast.If):
+                for c in _calls(s.test):
+                    visit_call(c, prot, func, depth)
+                walk(s.body, prot, func, depth)
+                walk(s.orelse, prot, func, depth)
+                continue
+            if isinstance(s, (ast.For, ast.While)):
+                for _ in range(2):     # a replacement in iteration 1 precedes a raise in iteration 2
+                    walk(s.body, prot, func, depth)
+                continue
+            if isinstance(s, ast.Raise):
+                events.append(("raise", func, s.lineno, state["mut"], prot))
+                res.instances += 1
+                if state["mut"] and not prot:
+                    report(s, "raise " + norm(s)[:60], func)
+                continue
+            for c in _calls(s):
+                visit_call(c, prot, func, depth)
+            # property reads on self that mutate/raise (new_sourcevalues etc. are pure)
+
+    def visit_call(c, prot, func, depth):
+        m = _self_method_call(c)
+        name = c.func.attr if isinstance(c.func, ast.Attribute) else (c.func.id if isinstance(c.func, ast.Name) else "")
+        if m and m in T.methods:
+            if T.is_mut(m) or T.may_raise(m):
+                walk(T.methods[m].body, prot, f"ModelingUpdate.{m}", depth + 1)
+            return
+        if name in RAISE_PRIMS:
+            res.instances += 1
+            events.append((name, func, c.lineno, state["mut"], prot))
+            if state["mut"] and not prot:
+                report(c, name, func)
+        if name in MUT_PRIMS:
+            state["mut"] = True
+
+    walk(init.body, False, "ModelingUpdate.__init__")
+    seen = set()
+    for node, what, func in findings:
+        key = f"{func} :: {what} after a replacement, unprotected"
+        if key in seen:
+            continue
+        seen.add(key)
+        cl = clause_of(what)
+        msg = {
+            "val": "the allowed-values check runs after the new value has been installed and nothing puts the old one "
+                   "back: a refused assignment leaves the refused value in the model",
+            "recompute": "an update rule raising in the middle of the recomputation loop leaves the values already "
+                         "replaced (and the edited input) in place; their replaced predecessors stay referenced as "
+                         "ancestors by values not yet recomputed, so the next edit crashes on a detached ancestor",
+            "date": "a date rejection after values were replaced leaves the model modified",
+            "sim": "a simulation that raises here never reaches reset_values: the baseline keeps simulated values",
+        }
+        res.findings.append(Finding(
+            "R-TXN", key, f"{func}: {what} can raise after model values were replaced and no enclosing try restores "
+            f"them — " + "; ".join(msg[c] for c in cl if c in msg), rel, node.lineno, func, {"clauses": cl}))
+    # a simulation's normal exit resets
+    res.instances += 1
+    tail = init.body[-1]
+    ok_tail = isinstance(tail, ast.If) and "simulation_date" in norm(tail.test) and any(
+        _self_method_call(c) == "reset_values" for c in _calls(tail))
+    if not ok_tail:
+        res.findings.append(Finding(
+            "R-TXN", "ModelingUpdate.__init__ :: no final reset_values for simulations",
+            "ModelingUpdate.__init__ does not end with `if simulation_date is not None: self.reset_values()`: a "
+            "successful simulation would leave its values installed in the baseline", rel, tail.lineno,
+            "ModelingUpdate.__init__", {"clauses": ["sim"]}))
+    # the restoring method covers every replacement segment and sees partial progress
+    restorers = [m for m in T.methods if T.restores(m) and m not in ("reset_values", "set_updated_values",
+                                                                     "apply_changes",
+                                                                     "replace_ancestors_not_in_computation_chain_by_copies",
+                                                                     "filter_hourly_quantities_to_filter")]
+    handler_used = None
+    for n in ast.walk(init):
+        if isinstance(n, ast.Try):
+            for h in n.handlers:
+                for c in _calls(h):
+                    if _self_method_call(c) in restorers:
+                        handler_used = _self_method_call(c)
+    if handler_used:
+        fn = T.methods[handler_used]
+        mentioned = {n.attr for n in ast.walk(fn) if isinstance(n, ast.Attribute) and isinstance(n.value, ast.Name)
+                     and n.value.id == "self"}
+        need = ["changes_list", "hourly_quantities_to_filter", "filtered_hourly_quantities",
+                "ancestors_to_replace_by_copies", "replaced_ancestors_copies", "values_to_recompute",
+                "recomputed_values"]
+        for nm in need:
+            res.instances += 1
+            if nm not in mentioned:
+                res.findings.append(Finding(
+                    "R-TXN", f"ModelingUpdate.{handler_used} :: does not restore {nm}",
+                    f"ModelingUpdate.{handler_used} (the exception handler's restore) never looks at self.{nm}: values "
+                    f"replaced through that list stay in the model after a failed update", rel, fn.lineno,
+                    f"ModelingUpdate.{handler_used}", {"clauses": ["sim", "recompute", "val"]}))
+        # partial progress of the raising loop must be visible: recompute_attributes publishes its list before the loop
+        rec = T.methods.get("recompute_attributes")
+        res.instances += 1
+        if rec is not None:
+            published = None
+            loop = next((s for s in rec.body if isinstance(s, ast.For)), None)
+            for s in rec.body:
+                if loop is not None and s.lineno >= loop.lineno:
+                    break
+                if isinstance(s, ast.Assign):
+                    for t in s.targets:
+                        if isinstance(t, ast.Attribute) and isinstance(t.value, ast.Name) and t.value.id == "self" \
+                                and t.attr == "recomputed_values":
+                            published = s
+            appended_in_loop = False
+            if loop is not None and published is not None:
+                aliases = {t.id for t in published.targets if isinstance(t, ast.Name)} | {"self.recomputed_values"}
+                for c in _calls(loop):
+                    if isinstance(c.func, ast.Attribute) and c.func.attr == "append" and norm(c.func.value) in aliases:
+                        appended_in_loop = True
+            if not (published is not None and appended_in_loop):
+                res.findings.append(Finding(
+                    "R-TXN", "ModelingUpdate.recompute_attributes :: partial progress not visible to the restore",
+                    "recompute_attributes only hands its list of recomputed values back when the loop completes: when "
+                    "a rule raises midway, the handler cannot know which values were already replaced and leaves them "
+                    "in the model", rel, rec.lineno, "ModelingUpdate.recompute_attributes",
+                    {"clauses": ["recompute", "sim"]}))
+    res.samples = [{"event": e[0], "in": e[1], "line": e[2], "after_a_replacement": e[3], "inside_restoring_try": e[4]}
+                   for e in events[:8]]
+    res.breakdown = {"mutating_methods": sorted(m for m in T.methods if T.is_mut(m)),
+                     "raising_methods": sorted(m for m in T.methods if T.may_raise(m)),
+                     "restore_method": handler_used}
+    res.floor = 8
+    return res
+
+
+def _zip_loop(fn):
+    """(guard test, loop var names, zip arg texts, receiver var, argument var, flag value) of set/reset methods"""
+    top = [s for s in fn.body if isinstance(s, ast.If)]
+    if len(top) != 1:
+        return None
+    iff = top[0]
+    loop = next((s for s in iff.body if isinstance(s, ast.For)), None)
+    flag = next((s for s in iff.body if isinstance(s, ast.Assign)), None)
+    if loop is None or flag is None:
+        return None
+    if not (isinstance(loop.iter, ast.Call) and isinstance(loop.iter.func, ast.Name) and loop.iter.func.id == "zip"):
+        return None
+    vars_ = [e.id for e in loop.target.elts] if isinstance(loop.target, ast.Tuple) else None
+    zargs = [norm(a) for a in loop.iter.args]
+    call = next((c for c in _calls(loop) if isinstance(c.func, ast.Attribute)
+                 and c.func.attr == "replace_in_mod_obj_container_without_recomputation"), None)
+    if call is None or vars_ is None:
+        return None
+    recv = call.func.value.id if isinstance(call.func.value, ast.Name) else None
+    arg = call.args[0].id if call.args and isinstance(call.args[0], ast.Name) else None
+    if recv not in vars_ or arg not in vars_:
+        return None
+    return dict(guard=norm(iff.test), recv_list=zargs[vars_.index(recv)], arg_list=zargs[vars_.index(arg)],
+                flag=norm(flag), zargs=zargs, others=[s for s in iff.body if s is not loop and s is not flag])
+
+
+@rule("R-MIRROR")
+def r_mirror(E):
+    pm = E.pm
+    res = RuleResult("R-MIRROR", "set_updated_values and reset_values are mirror images: same zipped lists, receiver and "
+                                 "argument exchanged, opposite guards, opposite flag")
+    rel, a = pm.find_function(MU, "ModelingUpdate.set_updated_values")
+    rel, b = pm.find_function(MU, "ModelingUpdate.reset_values")
+    sa, sb = _zip_loop(a), _zip_loop(b)
+    res.instances = 1
+    if sa is None or sb is None:
+        res.undecided.append("set_updated_values / reset_values no longer have the guarded zip-loop shape")
+        return res
+    probs = []
+    if set(sa["zargs"]) != set(sb["zargs"]) or len(sa["zargs"]) != 2:
+        probs.append(f"different lists are zipped ({sa['zargs']} vs {sb['zargs']})")
+    if not (sa["recv_list"] == sb["arg_list"] and sa["arg_list"] == sb["recv_list"]):
+        probs.append(f"set replaces {sa['recv_list']} by {sa['arg_list']} but reset replaces {sb['recv_list']} by "
+                     f"{sb['arg_list']}")
+    if "previous" not in sa["recv_list"] or "new" not in sb["recv_list"]:
+        probs.append("set must replace the previous values by the new ones and reset the new ones by the previous")
+    if not ((sa["guard"] == f"not {sb['guard']}") or (sb["guard"] == f"not {sa['guard']}")):
+        probs.append(f"guards are not opposite ({sa['guard']} / {sb['guard']})")
+    if not (sa["flag"].endswith("= True") and sb["flag"].endswith("= False")
+            and sa["flag"].split("=")[0] == sb["flag"].split("=")[0]):
+        probs.append(f"flag updates are not opposite ({sa['flag']} / {sb['flag']})")
+    if "not" not in sa["guard"]:
+        probs.append("set_updated_values must be guarded by `not self.updated_values_set`")
+    for p in probs:
+        res.findings.append(Finding("R-MIRROR", f"set/reset :: {p[:100]}", f"set_updated_values / reset_values: {p}: "
+                                    f"toggling a simulation on and off does not return to the same baseline objects",
+                                    rel, b.lineno, "ModelingUpdate.reset_values"))
+    res.samples = [{"set_updated_values": {k: v for k, v in sa.items() if k != "others"},
+                    "reset_values": {k: v for k, v in sb.items() if k != "others"}}]
+    res.floor = 1
+    return res
+
+
+def _lockstep_pairs(T):
+    """(iterated self list, list that receives exactly one append per iteration) for the producer methods"""
+    pairs = {}
+    notes = []
+    for name, fn in T.methods.items():
+        for loop in [s for s in fn.body if isinstance(s, ast.For)]:
+            it = norm(loop.iter)
+            if not it.startswith("self."):
+                continue
+            appends = []
+            irregular = False
+            for s in loop.body:
+                # top level of the loop body only: an append under an `if`, or a continue/break/return, breaks lockstep
+                if isinstance(s, ast.Expr) and isinstance(s.value, ast.Call) and isinstance(s.value.func, ast.Attribute) \
+                        and s.value.func.attr == "append":
+                    appends.append(norm(s.value.func.value))
+            for n in ast.walk(loop):
+                if isinstance(n, (ast.Continue, ast.Break, ast.Return)):
+                    irregular = True
+                if isinstance(n, ast.Call) and isinstance(n.func, ast.Attribute) and n.func.attr == "append" \
+                        and norm(n.func.value) not in appends:
+                    irregular = True   # conditional append
+            for tgt in set(appends):
+                if appends.count(tgt) == 1 and not irregular:
+                    pairs[(it[5:], tgt)] = name
+                else:
+                    notes.append(f"{name}: loop over {it} appends to {tgt} irregularly")
+    return pairs, notes
+
+
+@rule("R-ZIP")
+def r_zip(E):
+    pm = E.pm
+    res = RuleResult("R-ZIP", "the lists zipped to restore values and to pair twins are built in lockstep: same segments "
+                              "in the same order, each produced with exactly one append per element of its partner")
+    T = TxnAnalysis(pm)
+    rel = T.rel
+    init = T.methods["__init__"]
+    prev = new = None
+    for n in ast.walk(init):
+        if isinstance(n, ast.Assign) and len(n.targets) == 1 and isinstance(n.targets[0], ast.Attribute):
+            if n.targets[0].attr == "all_previous_obj_linked_to_mod_obj":
+                prev = n
+            if n.targets[0].attr == "all_new_obj_linked_to_mod_obj":
+                new = n
+    if prev is None or new is None:
+        raise AnalysisError("all_previous_obj_linked_to_mod_obj / all_new_obj_linked_to_mod_obj vanished")
+
+    def segs(e):
+        if isinstance(e, ast.BinOp) and isinstance(e.op, ast.Add):
+            return segs(e.left) + segs(e.right)
+        return [e]
+    ps, ns = segs(prev.value), segs(new.value)
+    pairs, notes = _lockstep_pairs(T)
+    # a list returned by a producer and stored under another name in the caller
+    alias = {}
+    for fn in T.methods.values():
+        for n in ast.walk(fn):
+            if isinstance(n, ast.Assign) and len(n.targets) >= 1 and isinstance(n.value, ast.Call):
+                m = _self_method_call(n.value)
+                if m and m in T.methods:
+                    rets = [r for r in ast.walk(T.methods[m]) if isinstance(r, ast.Return) and r.value is not None]
+                    for t in n.targets:
+                        if isinstance(t, ast.Attribute) and isinstance(t.value, ast.Name) and t.value.id == "self" \
+                                and len(rets) == 1 and isinstance(rets[0].value, ast.Name):
+                            alias[(m, rets[0].value.id)] = t.attr
+    # an attribute assigned as alias of a local list before the loop (self.x = x = [])
+    for name, fn in T.methods.items():
+        for n in ast.walk(fn):
+            if isinstance(n, ast.Assign) and len(n.targets) == 2:
+                a = [t for t in n.targets if isinstance(t, ast.Attribute)]
+                l = [t for t in n.targets if isinstance(t, ast.Name)]
+                if a and l:
+                    alias[(name, l[0].id)] = a[0].attr
+    lock = set()
+    for (it, tgt), m in pairs.items():
+        t = tgt[5:] if tgt.startswith("self.") else alias.get((m, tgt), tgt)
+        lock.add((it, t))
+    res.breakdown = {"lockstep_pairs": sorted(f"{a} ~ {b}" for a, b in lock), "irregular": notes}
+    if len(ps) != len(ns):
+        res.findings.append(Finding("R-ZIP", "segment count", f"all_previous… has {len(ps)} segments, all_new… has "
+                                    f"{len(ns)}: restore pairs the wrong objects", rel, prev.lineno,
+                                    "ModelingUpdate.__init__"))
+    for i, (p, n) in enumerate(zip(ps, ns)):
+        res.instances += 1
+        key = f"segment {i}: {norm(p)[:50]} ~ {norm(n)[:50]}"
+        if isinstance(p, ast.ListComp) and isinstance(n, ast.ListComp):
+            ok = norm(p.generators[0].iter) == norm(n.generators[0].iter) and not p.generators[0].ifs \
+                and not n.generators[0].ifs and norm(p.elt).endswith("[0]") and norm(n.elt).endswith("[1]")
+            if not ok:
+                res.findings.append(Finding("R-ZIP", key, f"segment {i}: the change pairs are not split as "
+                                            f"[c[0] …] / [c[1] …] over the same list", rel, prev.lineno,
+                                            "ModelingUpdate.__init__"))
+            continue
+        a, b = norm(p), norm(n)
+        if not (a.startswith("self.") and b.startswith("self.")):
+            res.findings.append(Finding("R-ZIP", key, f"segment {i} is not a pair of self lists", rel, prev.lineno,
+                                        "ModelingUpdate.__init__"))
+            continue
+        if (a[5:], b[5:]) not in lock:
+            res.findings.append(Finding(
+                "R-ZIP", key, f"segment {i}: self.{b[5:]} is not built with exactly one append per element of "
+                f"self.{a[5:]} (lockstep pairs found: {sorted(lock)}): reset_values / set_updated_values would put "
+                f"values back in the wrong places", rel, new.lineno, "ModelingUpdate.__init__"))
+        elif len(res.samples) < 4:
+            res.samples.append({"segment": i, "previous": a, "new": b, "verdict": "one append per element"})
+    # twins
+    rel2, tw = pm.find_function(MU, "ModelingUpdate.link_simulated_and_baseline_twins")
+    res.instances += 1
+    loop = next((s for s in tw.body if isinstance(s, ast.For)), None)
+    ok = loop is not None and isinstance(loop.iter, ast.Call) and norm(loop.iter.func) == "zip" and \
+        [norm(a) for a in loop.iter.args] == ["self.values_to_recompute", "self.recomputed_values"] and \
+        ("values_to_recompute", "recomputed_values") in lock
+    if not ok:
+        res.findings.append(Finding(
+            "R-ZIP", "twins", "link_simulated_and_baseline_twins does not zip values_to_recompute with a "
+            "recomputed_values list built in lockstep: a baseline value would be paired with the wrong simulated twin",
+            rel2, tw.lineno, "ModelingUpdate.link_simulated_and_baseline_twins"))
+    else:
+        # both directions are assigned
+        txt = norm(loop)
+        for need in ("simulation_twin = recomputed_value", "baseline_twin = value_to_recompute"):
+            res.instances += 1
+            if need not in txt:
+                res.findings.append(Finding("R-ZIP", f"twins :: {need}", f"twin link `{need}` missing", rel2, loop.lineno,
+                                            "ModelingUpdate.link_simulated_and_baseline_twins"))
+    res.floor = 6
+    return res
+
+
+@rule("R-SNAP")
+def r_snap(E):
+    pm = E.pm
+    res = RuleResult("R-SNAP", "the before-edit totals are snapshotted before the first model mutation (under the same "
+                               "guard as the change log) and the at-creation totals after the first full computation")
+    T = TxnAnalysis(pm)
+    init = T.methods["__init__"]
+    first_mut = None
+    for s in init.body:
+        for c in _calls(s):
+            m = _self_method_call(c)
+            if m and T.is_mut(m):
+                first_mut = first_mut or c.lineno
+    snaps = []
+    for n in ast.walk(init):
+        if isinstance(n, ast.Assign) and "previous_total_" in norm(n.targets[0]):
+            snaps.append(n)
+    if not snaps:
+        raise AnalysisError("previous_total_* snapshot vanished from ModelingUpdate.__init__")
+    for n in snaps:
+        res.instances += 1
+        if first_mut is not None and n.lineno > first_mut:
+            res.findings.append(Finding(
+                "R-SNAP", f"ModelingUpdate.__init__ :: {norm(n.targets[0])} after mutation",
+                f"{norm(n.targets[0])} is taken after the changes were applied: the totals are computed on demand from "
+                f"the current links, so the 'before' reference is the state after the edit", T.rel, n.lineno,
+                "ModelingUpdate.__init__"))
+        par = getattr(n, "_parent", None)
+        guard = norm(par.test) if isinstance(par, ast.If) else ""
+        log = [x for x in (par.body if isinstance(par, ast.If) else []) if "all_changes" in norm(x)]
+        if not (isinstance(par, ast.If) and "changes_list" in guard and "system" in guard and log):
+            res.findings.append(Finding(
+                "R-SNAP", f"ModelingUpdate.__init__ :: {norm(n.targets[0])} guard",
+                f"{norm(n.targets[0])} is not taken under the same guard as the change log", T.rel, n.lineno,
+                "ModelingUpdate.__init__"))
+        # what is snapshotted: the matching on-demand total
+        want = "total_energy_footprint_sum_over_period" if "energy" in norm(n.targets[0]) else \
+            "total_fabrication_footprint_sum_over_period"
+        if want not in norm(n.value):
+            res.findings.append(Finding(
+                "R-SNAP", f"ModelingUpdate.__init__ :: {norm(n.targets[0])} source",
+                f"{norm(n.targets[0])} is assigned {norm(n.value)[:60]}, not the system's {want}", T.rel, n.lineno,
+                "ModelingUpdate.__init__"))
+    rel, ai = pm.find_function("core/system.py", "System.after_init")
+    comp = None
+    for s in ai.body:
+        for c in _calls(s):
+            if _self_method_call(c) == "compute_calculated_attributes":
+                comp = c.lineno
+    inits = [n for n in ast.walk(ai) if isinstance(n, ast.Assign) and "initial_total_" in norm(n.targets[0])]
+    if not inits or comp is None:
+        raise AnalysisError("System.after_init: initial totals or compute_calculated_attributes vanished")
+    for n in inits:
+        res.instances += 1
+        want = "total_energy_footprint_sum_over_period" if "energy" in norm(n.targets[0]) else \
+            "total_fabrication_footprint_sum_over_period"
+        if n.lineno < comp:
+            res.findings.append(Finding("R-SNAP", f"System.after_init :: {norm(n.targets[0])} before computation",
+                                        f"{norm(n.targets[0])} is taken before the system is computed", rel, n.lineno,
+                                        "System.after_init"))
+        if want not in norm(n.value):
+            res.findings.append(Finding("R-SNAP", f"System.after_init :: {norm(n.targets[0])} source",
+                                        f"{norm(n.targets[0])} is assigned {norm(n.value)[:60]}, not {want}", rel,
+                                        n.lineno, "System.after_init"))
+    res.samples = [{"snapshot": norm(n)[:90], "first_mutating_call_line": first_mut} for n in snaps]
+    res.floor = 4
+    return res
+
+
+# functions allowed to store into a model object's attribute dictionary without ModelingObject.__setattr__'s update
+# logic, each with its reason (confirmed by reading)
+ENTRY_ALLOWED = {
+    "ObjectLinkedToModelingObj.replace_in_mod_obj_container_without_recomputation":
+        "the internal replace primitive of ModelingUpdate (bookkeeping done by its caller)",
+    "json_to_system": "objects under construction, trigger_modeling_updates is False",
+    "ModelingObject.__setattr__": "the entry point itself",
+    "ContextualModelingObjectAttribute.__setattr__": "wrapper: own fields locally, everything else forwarded",
+    "GenAIModel.__setattr__": "override delegating to super().__setattr__",
+    "BoaviztaCloudServer.__setattr__": "override delegating to super().__setattr__",
+    "ExplainableObject.__copy__": "re-initialises a fresh ExplainableObject (not a model object)",
+}
+
+
+def _enclosing(n):
+    fn, cls = None, None
+    x = n
+    while x is not None:
+        if isinstance(x, ast.FunctionDef) and fn is None:
+            fn = x
+        if isinstance(x, ast.ClassDef) and cls is None:
+            cls = x
+        x = getattr(x, "_parent", None)
+    return (f"{cls.name}.{fn.name}" if cls is not None and fn is not None else (fn.name if fn is not None else "<module>")), fn
+
+
+@rule("R-ENTRY")
+def r_entry(E):
+    pm = E.pm
+    res = RuleResult("R-ENTRY", "the only code that stores into a model object's attribute dictionary without going "
+                                "through ModelingObject.__setattr__ is a frozen set of framework functions; every "
+                                "__setattr__ override delegates with the same arguments; the wrapper forwards")
+    for mod, (rel, tree, src) in sorted(pm.modules.items()):
+        for n in ast.walk(tree):
+            site = None
+            if isinstance(n, (ast.Assign, ast.AugAssign)):
+                for t in (n.targets if isinstance(n, ast.Assign) else [n.target]):
+                    b = t
+                    while isinstance(b, ast.Subscript):
+                        b = b.value
+                        if isinstance(b, ast.Attribute) and b.attr == "__dict__":
+                            site = n
+                        if isinstance(b, ast.Call) and isinstance(b.func, ast.Name) and b.func.id == "vars":
+                            site = n
+            if isinstance(n, ast.Call):
+                f = n.func
+                if isinstance(f, ast.Attribute) and f.attr == "__setattr__" and (
+                        (isinstance(f.value, ast.Call) and norm(f.value.func) == "super")
+                        or (isinstance(f.value, ast.Name) and f.value.id == "object")):
+                    site = n
+                if isinstance(f, ast.Attribute) and f.attr in ("update", "setdefault", "pop") and \
+                        isinstance(f.value, ast.Attribute) and f.value.attr == "__dict__":
+                    site = n
+            if site is None:
+                continue
+            q, fn = _enclosing(site)
+            res.instances += 1
+            if q not in ENTRY_ALLOWED:
+                res.findings.append(Finding(
+                    "R-ENTRY", f"{q} :: {norm(site)[:100]}",
+                    f"{q} stores into an object's attribute dictionary directly ({norm(site)[:70]}): that edit is never "
+                    f"validated and never triggers recomputation", rel, site.lineno, q))
+            elif len(res.samples) < 6:
+                res.samples.append({"function": q, "site": norm(site)[:80], "allowed_because": ENTRY_ALLOWED[q]})
+    # overrides of __setattr__ in model classes
+    for cn, ci in sorted(pm.classes.items()):
+        if not pm.is_model(cn) or cn == "ModelingObject":
+            continue
+        fn = next((f for f in pm.own_methods(cn) if f.name == "__setattr__"), None)
+        if fn is None:
+            continue
+        res.instances += 1
+        params = [a.arg for a in fn.args.args]
+        last = fn.body[-1]
+        ok = isinstance(last, ast.Expr) and isinstance(last.value, ast.Call) and norm(last.value.func) == \
+            "super().__setattr__" and [norm(a) for a in last.value.args[:2]] == params[1:3]
+        # every earlier statement is a raise-only guard
+        for s in fn.body[:-1]:
+            if not (isinstance(s, ast.If) and all(isinstance(x, ast.Raise) for x in s.body) and not s.orelse):
+                ok = False
+        # the validity flag is threaded through
+        if ok and len(params) > 3:
+            kws = {k.arg: norm(k.value) for k in last.value.keywords}
+            extra = [norm(a) for a in last.value.args[2:]]
+            if kws.get(params[3]) != params[3] and extra != [params[3]]:
+                ok = False
+        if not ok:
+            res.findings.append(Finding(
+                "R-ENTRY", f"{cn}.__setattr__ override",
+                f"{cn}.__setattr__ does not end every non-raising path with super().__setattr__({', '.join(params[1:])}): "
+                f"some assignments bypass validation and the update machinery", ci.path, fn.lineno, f"{cn}.__setattr__"))
+    # the wrapper forwards every non-wrapper name
+    rel, fn = pm.find_function(CM, "ContextualModelingObjectAttribute.__setattr__")
+    res.instances += 1
+    iff = fn.body[0] if fn.body and isinstance(fn.body[0], ast.If) else None
+    fwd_ok = iff is not None and len(fn.body) == 1 and iff.orelse and \
+        norm(iff.orelse[0]) == "setattr(self._value, name, input_value)"
+    if fwd_ok:
+        lst = iff.test.comparators[0] if isinstance(iff.test, ast.Compare) else None
+        names = {e.value for e in lst.elts} if isinstance(lst, (ast.List, ast.Tuple, ast.Set)) else None
+        if names != {"_value", "modeling_obj_container", "attr_name_in_mod_obj_container"}:
+            fwd_ok = False
+    if not fwd_ok:
+        res.findings.append(Finding(
+            "R-ENTRY", "ContextualModelingObjectAttribute.__setattr__ forward",
+            "the link wrapper no longer forwards every non-wrapper attribute assignment to the wrapped object with "
+            "setattr (assignments through a link would land on the wrapper and be lost)", rel, fn.lineno,
+            "ContextualModelingObjectAttribute.__setattr__"))
+    # the entry point routes post-init assignments of non-calculated attributes into a ModelingUpdate
+    rel, fn = pm.find_function(MO, "ModelingObject.__setattr__")
+    res.instances += 1
+    top = next((s for s in fn.body if isinstance(s, ast.If)), None)
+    node = top
+    while node is not None and node.orelse and len(node.orelse) == 1 and isinstance(node.orelse[0], ast.If):
+        node = node.orelse[0]
+    final = node.orelse if node is not None else []
+    ok = any(isinstance(c.func, ast.Name) and c.func.id == "ModelingUpdate" and c.args
+             and norm(c.args[0]) == "[[current_attr, input_value]]" for s in final for c in _calls(s))
+    if not ok:
+        res.findings.append(Finding(
+            "R-ENTRY", "ModelingObject.__setattr__ update branch",
+            "ModelingObject.__setattr__ no longer routes a post-init assignment into "
+            "ModelingUpdate([[current_attr, input_value]])", rel, fn.lineno, "ModelingObject.__setattr__"))
+    else:
+        cond = norm(node.test)
+        if "self.calculated_attributes" not in cond or "trigger_modeling_updates" not in cond:
+            res.findings.append(Finding(
+                "R-ENTRY", "ModelingObject.__setattr__ direct-store condition",
+                f"the direct-store branch is taken under `{cond}`: it must be limited to calculated attributes and "
+                f"objects under construction", rel, node.lineno, "ModelingObject.__setattr__"))
+    res.floor = 10
+    return res
+
+
+EDGE_WRITERS = {
+    "direct_children_with_id": {"ExplainableObject.__init__", "ExplainableObject.add_child_to_direct_children_with_id",
+                                "ExplainableObject.remove_child_from_direct_children_with_id"},
+    "direct_ancestors_with_id": {"ExplainableObject.__init__"},
+    "contextual_modeling_obj_containers": {"ModelingObject.__init__",
+                                           "ModelingObject.add_to_contextual_modeling_obj_containers",
+                                           "json_to_system"},
+    "modeling_obj_container": {"ObjectLinkedToModelingObj.__init__", "ObjectLinkedToModelingObj.set_modeling_obj_container",
+                               "ContextualModelingObjectAttribute.__init__"},
+    "attr_name_in_mod_obj_container": {"ObjectLinkedToModelingObj.__init__",
+                                       "ObjectLinkedToModelingObj.set_modeling_obj_container",
+                                       "ContextualModelingObjectAttribute.__init__"},
+}
+MUTATORS = {"append", "extend", "insert", "remove", "pop", "clear", "sort", "reverse"}
+
+
+@rule("R-EDGE")
+def r_edge(E):
+    pm = E.pm
+    res = RuleResult("R-EDGE", "the bookkeeping of both ends of a dependency / link has single writers, and attaching / "
+                               "detaching a value registers / deregisters it on the same ancestors")
+    for mod, (rel, tree, src) in sorted(pm.modules.items()):
+        for n in ast.walk(tree):
+            hits = []
+            if isinstance(n, (ast.Assign, ast.AugAssign)):
+                for t in (n.targets if isinstance(n, ast.Assign) else [n.target]):
+                    for x in ast.walk(t):
+                        if isinstance(x, ast.Attribute) and x.attr in EDGE_WRITERS and isinstance(x.ctx, ast.Store):
+                            hits.append(x.attr)
+                        if isinstance(x, ast.Subscript) and isinstance(x.ctx, ast.Store) \
+                                and isinstance(x.value, ast.Attribute) and x.value.attr == "__dict__":
+                            k = x.slice
+                            if isinstance(k, ast.Constant) and k.value in EDGE_WRITERS:
+                                hits.append(k.value)
+                    if isinstance(t, ast.Subscript) and isinstance(t.value, ast.Attribute) and t.value.attr in EDGE_WRITERS:
+                        hits.append(t.value.attr)
+            if isinstance(n, ast.Call) and isinstance(n.func, ast.Attribute) and n.func.attr in MUTATORS \
+                    and isinstance(n.func.value, ast.Attribute) and n.func.value.attr in EDGE_WRITERS:
+                hits.append(n.func.value.attr)
+            for h in hits:
+                q, fn = _enclosing(n)
+                res.instances += 1
+                if q not in EDGE_WRITERS[h]:
+                    res.findings.append(Finding(
+                        "R-EDGE", f"{q} writes {h} :: {norm(n)[:90]}",
+                        f"{q} writes the bookkeeping field {h}; only {sorted(EDGE_WRITERS[h])} may: the two ends of a "
+                        f"dependency / link can disagree", rel, n.lineno, q))
+                elif len(res.samples) < 5:
+                    res.samples.append({"field": h, "writer": q, "site": norm(n)[:70]})
+    # attach / detach pairing in ExplainableObject.set_modeling_obj_container
+    rel, fn = pm.find_function(EB, "ExplainableObject.set_modeling_obj_container")
+    res.instances += 1
+    sup = next((s for s in fn.body if isinstance(s, ast.Expr) and "super().set_modeling_obj_container" in norm(s)), None)
+    dereg = reg = None
+    for s in fn.body:
+        if isinstance(s, ast.If):
+            t = norm(s)
+            if "remove_child_from_direct_children_with_id" in t:
+                dereg = s
+            if "add_child_to_direct_children_with_id" in t:
+                reg = s
+    probs = []
+    if sup is None or dereg is None or reg is None:
+        probs.append("the deregistration loop, the super() call or the registration loop is missing")
+    else:
+        if not (dereg.lineno < sup.lineno < reg.lineno):
+            probs.append("deregistration must precede, and registration follow, the change of container")
+        if norm(dereg.test) != "self.modeling_obj_container is not None":
+            probs.append(f"deregistration runs under `{norm(dereg.test)}` instead of `self.modeling_obj_container is not None`")
+        if norm(reg.test) != "new_modeling_obj_container is not None":
+            probs.append(f"registration runs under `{norm(reg.test)}` instead of `new_modeling_obj_container is not None`")
+        for blk, nm in ((dereg, "remove_child_from_direct_children_with_id"), (reg, "add_child_to_direct_children_with_id")):
+            loop = next((x for x in ast.walk(blk) if isinstance(x, ast.For)), None)
+            if loop is None or norm(loop.iter) != "self.direct_ancestors_with_id":
+                probs.append(f"{nm} is not applied to every element of self.direct_ancestors_with_id")
+            else:
+                c = next((c for c in _calls(loop) if isinstance(c.func, ast.Attribute) and c.func.attr == nm), None)
+                if c is None or norm(c.func.value) != norm(loop.target) or \
+                        not any(norm(k.value) == "self" for k in c.keywords) and [norm(a) for a in c.args] != ["self"]:
+                    probs.append(f"{nm} is not called on each ancestor with direct_child=self")
+    for p in probs:
+        res.findings.append(Finding("R-EDGE", f"ExplainableObject.set_modeling_obj_container :: {p[:90]}",
+                                    f"ExplainableObject.set_modeling_obj_container: {p}: a dependency would be listed "
+                                    f"on one end only", rel, fn.lineno, "ExplainableObject.set_modeling_obj_container"))
+    # the ancestor list built at construction takes both parents
+    rel, ini = pm.find_function(EB, "ExplainableObject.__init__")
+    res.instances += 1
+    loop = next((x for x in ini.body if isinstance(x, ast.For)), None)
+    if loop is None or "self.left_parent" not in norm(loop.iter) or "self.right_parent" not in norm(loop.iter) or \
+            "return_direct_ancestors_with_id_to_child" not in norm(loop):
+        res.findings.append(Finding("R-EDGE", "ExplainableObject.__init__ ancestors",
+                                    "the constructor no longer collects the ancestors of both parents", rel, ini.lineno,
+                                    "ExplainableObject.__init__"))
+    res.floor = 12
+    return res
+
+
+@rule("R-ID")
+def r_id(E):
+    pm = E.pm
+    res = RuleResult("R-ID", "values are deduplicated and matched by .id, so the identifier must be injective over "
+                             "simultaneously attached values")
+    rel, fn = pm.find_function(OL, "ObjectLinkedToModelingObj.id")
+    ret = next((n for n in ast.walk(fn) if isinstance(n, ast.Return) and n.value is not None), None)
+    if ret is None:
+        raise AnalysisError("ObjectLinkedToModelingObj.id: no return")
+    parts = {norm(v.value) for v in ast.walk(ret.value) if isinstance(v, ast.FormattedValue)}
+    uses_key = any("key" in p for p in parts)
+    # count the id-based dedup / matching sites
+    n_sites = 0
+    for mod, (r2, tree, src) in pm.modules.items():
+        if not any(r2.endswith(x) for x in (EB, MU, ED)):
+            continue
+        for n in ast.walk(tree):
+            if isinstance(n, ast.Compare) and any(isinstance(o, (ast.In, ast.NotIn, ast.Eq, ast.NotEq)) for o in n.ops) \
+                    and ".id" in norm(n):
+                n_sites += 1
+    res.instances = n_sites + 1
+    # attach sites that reuse one (container, attr_name) for several values
+    rel2, si = pm.find_function(ED, "ExplainableObjectDict.__setitem__")
+    call = next((c for c in _calls(si) if isinstance(c.func, ast.Attribute) and c.func.attr == "set_modeling_obj_container"), None)
+    shared = False
+    if call is not None:
+        args = [norm(a) for a in call.args] + [norm(k.value) for k in call.keywords]
+        shared = "self.attr_name_in_mod_obj_container" in args and not any("key" in a for a in args)
+    res.breakdown = {"id_depends_on": sorted(parts), "id_based_comparison_sites": n_sites,
+                     "dict_entries_attached_under_the_dict_name": shared}
+    if shared and not uses_key:
+        res.findings.append(Finding(
+            "R-ID", "ObjectLinkedToModelingObj.id + ExplainableObjectDict.__setitem__",
+            "every entry of an ExplainableObjectDict is attached under the dict's own (container, attribute name), and "
+            f"id is built from {sorted(parts)} only: all entries of one per-usage-pattern dict share one id, so "
+            "ancestor / child lists deduplicated by id keep only the first entry and edits that reach the model through "
+            "another entry do not recompute its dependants", rel, fn.lineno, "ObjectLinkedToModelingObj.id"))
+    res.samples = [{"id_format": norm(ret.value)[:80], "dict_attach": norm(call)[:100] if call is not None else None}]
+    res.floor = 8
+    return res
+
+
+@rule("R-GUARD")
+def r_guard(E):
+    pm = E.pm
+    res = RuleResult("R-GUARD", "self_delete refuses while the object is referenced, before detaching anything; the "
+                                "one-system check runs before linking and before computing, and rejects both another "
+                                "system and two systems")
+    rel, sd = pm.find_function(MO, "ModelingObject.self_delete")
+    res.instances += 1
+    guard = next((s for s in sd.body if isinstance(s, ast.If) and norm(s.test) == "self.modeling_obj_containers"
+                  and any(isinstance(x, ast.Raise) for x in s.body)), None)
+    first_detach = min([c.lineno for c in _calls(sd) if isinstance(c.func, ast.Attribute)
+                        and c.func.attr == "set_modeling_obj_container"] or [10 ** 9])
+    if guard is None or guard.lineno > first_detach:
+        res.findings.append(Finding(
+            "R-GUARD", "ModelingObject.self_delete guard",
+            "self_delete no longer raises on a non-empty modeling_obj_containers before its first detach: an object "
+            "still referenced can be (partly) deleted", rel, sd.lineno, "ModelingObject.self_delete"))
+    rel, si = pm.find_function("core/system.py", "System.__init__")
+    res.instances += 1
+    chk = [c.lineno for c in _calls(si) if _self_method_call(c) == "check_no_object_to_link_is_already_linked_to_another_system"]
+    link = [n.lineno for n in ast.walk(si) if isinstance(n, ast.Assign) and norm(n.targets[0]) == "self.usage_patterns"]
+    if not chk or not link or min(chk) > min(link):
+        res.findings.append(Finding("R-GUARD", "System.__init__ check order",
+                                    "System.__init__ links its usage patterns before checking that none of their "
+                                    "objects already belongs to another system", rel, si.lineno, "System.__init__"))
+    rel, cc = pm.find_function("core/system.py", "System.compute_calculated_attributes")
+    res.instances += 1
+    chk = [c.lineno for c in _calls(cc) if _self_method_call(c) == "check_no_object_to_link_is_already_linked_to_another_system"]
+    sup = [c.lineno for c in _calls(cc) if "super().compute_calculated_attributes" in norm(c.func)]
+    if not chk or not sup or min(chk) > min(sup):
+        res.findings.append(Finding("R-GUARD", "System.compute_calculated_attributes check order",
+                                    "the one-system check no longer precedes the system's computation", rel, cc.lineno,
+                                    "System.compute_calculated_attributes"))
+    rel, ck = pm.find_function("core/system.py", "System.check_no_object_to_link_is_already_linked_to_another_system")
+    res.instances += 1
+    raises = [n for n in ast.walk(ck) if isinstance(n, ast.Raise)]
+    tests = [norm(s.test) for s in ast.walk(ck) if isinstance(s, ast.If)]
+    if len(raises) < 2 or not any("!= self.id" in t for t in tests) or not any("> 1" in t for t in tests):
+        res.findings.append(Finding("R-GUARD", "System.check_no_object… cases",
+                                    "the one-system check must raise both for an object linked to another system and "
+                                    "for an object linked to two systems", rel, ck.lineno, ck.name))
+    res.samples = [{"self_delete_guard_line": guard.lineno if guard else None, "first_detach_line": first_detach}]
+    res.floor = 4
+    return res
+
+
+REVERSE_NAMES = {"jobs", "usage_patterns", "usage_journeys", "usage_journey_steps", "networks", "servers", "storages",
+                 "server", "installed_services", "systems", "modeling_obj_containers", "usage_journey", "devices",
+                 "network", "country", "uj_steps", "service", "storage"}
+
+
+@rule("R-REV")
+def r_rev(E):
+    pm = E.pm
+    res = RuleResult("R-REV", "reverse look-ups are computed from modeling_obj_containers and forward links on every "
+                              "call; no model class stores one in an instance attribute")
+    for cn, ci in sorted(pm.classes.items()):
+        if not pm.is_model(cn):
+            continue
+        ia = pm.init_attrs(cn)
+        for fn in pm.own_methods(cn):
+            if not is_property(fn) or fn.name not in REVERSE_NAMES:
+                continue
+            res.instances += 1
+            where = f"{cn}.{fn.name}"
+            bad = None
+            for n in ast.walk(fn):
+                if isinstance(n, ast.Attribute) and isinstance(n.value, ast.Name) and n.value.id == "self":
+                    a = n.attr
+                    o, m = pm.find_method(cn, a)
+                    if m is not None:
+                        continue      # property or method: derived
+                    info = ia.get(a)
+                    if info is not None and info.kind == "link":
+                        continue      # forward link
+                    if a in ("contextual_modeling_obj_containers", "name", "id"):
+                        continue
+                    subs = [pm.init_attrs(k).get(a) for k in pm.subclasses(cn)]
+                    if any(s is not None and s.kind == "link" for s in subs) or any(
+                            pm.find_method(k, a)[1] is not None for k in pm.subclasses(cn)):
+                        continue
+                    bad = a
+                if isinstance(n, (ast.Assign, ast.AugAssign)):
+                    for t in (n.targets if isinstance(n, ast.Assign) else [n.target]):
+                        if isinstance(t, ast.Attribute):
+                            bad = f"store {norm(t)}"
+                if isinstance(n, ast.Call) and isinstance(n.func, ast.Name) and n.func.id in ("setattr",):
+                    bad = "setattr"
+            if bad:
+                res.findings.append(Finding(
+                    "R-REV", f"{where} uses {bad}",
+                    f"{where} reads or writes stored state ({bad}) instead of deriving the reverse look-up from the "
+                    f"current links: no mutator maintains such a cache", ci.path, fn.lineno, where))
+            elif len(res.samples) < 4:
+                res.samples.append({"property": where, "verdict": "derived from containers / forward links / other "
+                                                                   "derived properties"})
+    rel, moc = pm.find_function(MO, "ModelingObject.modeling_obj_containers")
+    res.instances += 1
+    t = norm(moc)
+    if "self.contextual_modeling_obj_containers" not in t or "modeling_obj_container is not None" not in t:
+        res.findings.append(Finding(
+            "R-REV", "ModelingObject.modeling_obj_containers filter",
+            "modeling_obj_containers must be the holders of the *attached* link wrappers (filter on "
+            "modeling_obj_container is not None): detached wrappers stay in the list forever", rel, moc.lineno,
+            "ModelingObject.modeling_obj_containers"))
+    res.floor = 25
+    return res
+
+
+VIEW_FUNCS = {"to_json", "explain", "__str__", "__repr__", "plot", "compute_explain_nested_tuples", "print_tuple_element",
+              "pretty_print_calculation", "system_to_json", "recursively_write_json_dict", "calculus_graph_to_file",
+              "build_calculus_graph", "object_relationship_graph_to_file", "build_object_relationships_graph",
+              "plot_footprints_by_category_and_object", "plot_emission_diffs", "key_value_to_str",
+              "plot_baseline_and_simulation_dfs"}
+ACCUMULATORS = {"output_dict", "depth_lists", "descendants_list", "ancestors_list"}   # result containers passed down
+SYSTEM_VIEWS = ["fabrication_footprints", "energy_footprints", "total_fabrication_footprints", "total_energy_footprints",
+                "fabrication_footprint_sum_over_period", "energy_footprint_sum_over_period",
+                "total_fabrication_footprint_sum_over_period", "total_energy_footprint_sum_over_period"]
+
+
+@rule("R-PUREVIEW")
+def r_pureview(E):
+    pm = E.pm
+    res = RuleResult("R-PUREVIEW", "reading, explaining, plotting or exporting results performs no store into a model "
+                                   "object or an operand and calls no value-changing in-place method")
+    for mod, (rel, tree, src) in sorted(pm.modules.items()):
+        for fn in [n for n in ast.walk(tree) if isinstance(n, ast.FunctionDef) and n.name in VIEW_FUNCS]:
+            q, _ = _enclosing(fn.body[0]) if fn.body else (fn.name, None)
+            res.instances += 1
+            params = {a.arg for a in fn.args.args}
+            rebound = {t.id for n in ast.walk(fn) if isinstance(n, ast.Assign) for t in n.targets
+                       if isinstance(t, ast.Name)}
+            for n in ast.walk(fn):
+                if isinstance(n, (ast.Assign, ast.AugAssign)):
+                    for t in (n.targets if isinstance(n, ast.Assign) else [n.target]):
+                        b = t
+                        while isinstance(b, (ast.Attribute, ast.Subscript)):
+                            b = b.value
+                        if isinstance(n, ast.Assign) and norm(n.value).startswith(norm(t) + ".pint.to("):
+                            continue      # in-place unit conversion: the physical value is unchanged
+                        if isinstance(t, (ast.Attribute, ast.Subscript)) and isinstance(b, ast.Name) \
+                                and b.id in params and b.id not in rebound and b.id not in ACCUMULATORS:
+                            res.findings.append(Finding(
+                                "R-PUREVIEW", f"{q} :: {norm(n)[:90]}",
+                                f"{q} stores into its argument {b.id} ({norm(n)[:60]}): a read-only view alters the model",
+                                rel, n.lineno, q))
+                if isinstance(n, ast.Call) and isinstance(n.func, ast.Attribute) and n.func.attr in ("ceil", "round") \
+                        and isinstance(n.func.value, (ast.Attribute, ast.Name)) and "self" in norm(n.func.value) \
+                        and not norm(n.func.value).startswith(("np", "math")):
+                    res.findings.append(Finding(
+                        "R-PUREVIEW", f"{q} :: {norm(n)[:90]}",
+                        f"{q} calls the in-place .{n.func.attr}() on model state", rel, n.lineno, q))
+    # the System footprint views, through the interpreter
+    for v in SYSTEM_VIEWS:
+        res.instances += 1
+        cx = Cx("System", v)
+        try:
+            out, cx = E.I.run_method("System", v, cx)
+        except AnalysisError as e:
+            res.undecided.append(str(e))
+            continue
+        res.undecided += [f"System.{v}: {u}" for u in cx.unknown]
+        for a, sites in cx.writes.items():
+            res.findings.append(Finding("R-PUREVIEW", f"System.{v} writes self.{a}",
+                                        f"the view System.{v} assigns self.{a}", sites[0].path, sites[0].node.lineno,
+                                        sites[0].func))
+        for node, where, text in cx.foreign_writes:
+            res.findings.append(Finding("R-PUREVIEW", f"System.{v} foreign store :: {text[:80]}",
+                                        f"the view System.{v} stores into a model object: {text[:80]}", where[0],
+                                        node.lineno, where[1]))
+        for node, where, name, b in cx.inplace:
+            if not b.fresh or b.shares:
+                res.findings.append(Finding("R-PUREVIEW", f"System.{v} :: {norm(node)[:80]}",
+                                            f"the view System.{v} rounds a model value in place", where[0], node.lineno,
+                                            where[1]))
+        for node, where, b in cx.frame_stores:
+            res.findings.append(Finding("R-PUREVIEW", f"System.{v} frame store :: {norm(node)[:80]}",
+                                        f"the view System.{v} stores into a frame shared with the model", where[0],
+                                        node.lineno, where[1]))
+    res.samples = [{"system_views_interpreted": SYSTEM_VIEWS}]
+    res.floor = 30
+    return res
